@@ -51,7 +51,7 @@ func VerifAppendDecimal() {
 		vReach("special")
 		return
 	}
-	lim := float64(vParam("LIM", 10))
+	lim := float64(vParam("LIM", 10)) / float64(vParam("LIMDIV", 1))
 	vAssume(-lim < f && f < lim)
 	out := AppendDecimal(dst, f, dec)
 	vObserve("out", out)
